@@ -52,6 +52,9 @@ pub enum Step {
     Churn { n: u16 },
     /// clean stop and restart from the log between two steps
     Restart,
+    /// `n` AppendEntries in a row, each carrying one entry of about 1.2 MiB (a
+    /// log of tens of MiB)
+    Bulk { from: u8, n: u8 },
     Election,
     VoteResp { from: u8, granted: bool, dterm: i8 },
     AppendResp { from: u8, ok: bool, back: u8, dterm: i8 },
@@ -372,6 +375,46 @@ impl<'a> Trial<'a> {
                 }
             },
             Step::Restart => {},
+            Step::Bulk { from, n } => {
+                let leader = format!("n{}", 1 + from % 2);
+                let term = self.leader_term(t.max(lt).max(1), &leader);
+                let mut prev = l;
+                let mut prev_term = lt;
+                self.ctx.event(&format!("in <- {leader}: {n} AppendEntries of one ~1.2 MiB entry each, term {term}, from index {}", l + 1));
+                for _ in 0..*n {
+                    let idx = prev + 1;
+                    let pl = self.script_payload(term, idx);
+                    let mut blk = mk_block(pl, &leader, self.case.fast_path);
+                    blk.transactions.push(tensor_chain::Transaction::Put { key: format!("big{pl}"), data: big_payload(4, pl) });
+                    let msg = Message::AppendEntries(AppendEntries {
+                        term,
+                        leader_id: leader.clone(),
+                        prev_log_index: prev,
+                        prev_log_term: prev_term,
+                        entries: vec![LogEntry::new(term, idx, blk)],
+                        leader_commit: prev,
+                        block_embedding: None,
+                    });
+                    match node.handle_message(&leader, &msg) {
+                        Some(r) => {
+                            let ok = matches!(&r, Message::AppendEntriesResponse(a) if a.success);
+                            self.cl.push(NODE, &leader, r);
+                            if !ok {
+                                break;
+                            }
+                        },
+                        None => break,
+                    }
+                    if self.ctx.is_dead(NODE) {
+                        break;
+                    }
+                    prev = idx;
+                    prev_term = term;
+                }
+                if *n >= 56 {
+                    self.ctx.probe("log_of_more_than_64_mib");
+                }
+            },
             Step::Churn { n } => {
                 self.ctx.event(&format!("{n} election timeouts in a row"));
                 for _ in 0..*n {
@@ -878,6 +921,13 @@ impl Scenario for C10 {
             // at the end)
             mode = Mode::Chain(Vec::new());
         }
+        // very few programs carry a log of 70-90 MiB (clean restarts only)
+        if mode != Mode::Enumerate && rng.chance(1, 40) {
+            let at = rng.usize_below(steps.len() + 1);
+            steps.insert(at, Step::Bulk { from: rng.below(2) as u8, n: rng.range(58, 75) as u8 });
+            steps.insert(at + 1, Step::Restart);
+            mode = Mode::Chain(Vec::new());
+        }
         // clean restarts between steps
         if rng.chance(1, 4) {
             let at = rng.usize_below(steps.len() + 1);
@@ -1024,6 +1074,7 @@ impl Scenario for C10 {
             "log_compacted_in_memory",
             "entry_record_over_1mib",
             "log_of_more_than_1000_records",
+            "log_of_more_than_64_mib",
         ]
     }
     fn rule(&self) -> String {
